@@ -71,6 +71,7 @@ def reref(form, k):
 
 
 FORMS = ('var', 'if', 'let', 'in', 'letin', 'expr')
+FALSY = ['', None, 0, [], 0.0, ()]
 
 
 def cases(tier):
@@ -135,6 +136,33 @@ def cases(tier):
                        'else': 0, 'reref': None, 'syntax': s}
     yield {'form': 'special'}
     yield {'form': 'late'}
+    # branches with an empty body (an empty branch still ends the search),
+    # and every kind of false value (all are remembered like true ones)
+    for n in (1, 2, 3):
+        for truth in itertools.product((0, 1), repeat=n):
+            for has_else in (0, 1):
+                slots = list(range(n)) + (['else'] if has_else else [])
+                for k in range(1, len(slots) + 1):
+                    for empt in itertools.combinations(slots, k):
+                        idx += 1
+                        yield {'form': 'if', 'kinds': ['name'] * n,
+                               'truth': list(truth), 'else': has_else,
+                               'reref': None, 'empties': list(empt),
+                               'syntax': syntaxes[idx % 3]}
+    for n in (1, 2):
+        for fz in itertools.product(range(len(FALSY)), repeat=n):
+            for has_else in (0, 1):
+                for rr in [None] + [(f, k) for k in range(n)
+                                    for f in ('var', 'if', 'let', 'expr')]:
+                    idx += 1
+                    yield {'form': 'if', 'kinds': ['name'] * n,
+                           'truth': [0] * n, 'falsy': list(fz),
+                           'else': has_else, 'reref': rr,
+                           'syntax': syntaxes[idx % 3]}
+                    if n == 1:
+                        yield {'form': 'unless', 'kinds': ['name'],
+                               'truth': [0], 'falsy': list(fz), 'else': 0,
+                               'reref': rr, 'syntax': syntaxes[idx % 3]}
     # sibling conditionals / calls testing the same name: each one has its
     # own cache, so each evaluates the name again (once)
     sib = ('if', 'ifelse', 'unless', 'call', 'ifvar')
@@ -242,10 +270,16 @@ def build(case):
     rr = case['reref']
     extra = reref(rr[0], rr[1]) if rr else []
     ns = {'s2': ['seq', 'list', [['lit', 10], ['lit', 20]]]}
+    fz = case.get('falsy')
     for i, k in enumerate(kinds):
         if k != 'undef' and case['form'] != 'repeat':
+            false = FALSY[fz[i]] if fz else ''
+            if isinstance(false, tuple):
+                false = ['seq', 'tuple', []]
+            else:
+                false = ['lit', false]
             ns['c%d' % i] = ['probe', i,
-                             ['lit', ('T%d' % i) if truth[i] else '']]
+                             ['lit', 'T%d' % i] if truth[i] else false]
     if case['form'] == 'repeat':
         ns = {'s2': ['seq', 'list', [['lit', 10], ['lit', 20]]]}
         for k in (0, 1):
@@ -260,6 +294,11 @@ def build(case):
         branches = [[cond_ref(k, i), [T('B%d' % i)] + extra]
                     for i, k in enumerate(kinds)]
         els = ([T('E')] + extra) if case['else'] else None
+        for e in case.get('empties', []):
+            if e == 'else':
+                els = []
+            else:
+                branches[e][1] = []
         nodes = [T('<'), ['if', branches, els], T('>')]
     elif case['form'] == 'siblings':
         c = N('c0')
